@@ -162,8 +162,9 @@ def check(run):
                 base = {}
                 reqs = [None] + list(subsets(cols))
                 if run.quick and len(reqs) > 24:
-                    idx = rng.choice(len(reqs) - 1, 22, replace=False) + 1
-                    reqs = [None] + [reqs[int(i)] for i in idx] + [cols]
+                    idx = rng.choice(len(reqs) - 1, 14, replace=False) + 1
+                    pairs = [r for r in reqs[1:] if len(r) <= 2]  # singles and every pair (buffer-sharing hazards are pairwise)
+                    reqs = [None] + pairs + [reqs[int(i)] for i in idx if reqs[int(i)] not in pairs] + [cols]
                 for load in reqs:
                     for dtype in (np.float32, np.float64):
                         eff = load if load is not None else (['pos', 'vel'] if ftype in ('rvint', 'pack9') else ['pid'])
